@@ -246,6 +246,7 @@ func (H) Reset() {
 		}
 	}
 	config.VerifSimMuteEvents()
+	modules.VerifSimRenewContext(api.VerifSimModule())
 	api.VerifSimResetPackage()
 	api.VerifSimResetRun()
 	if err := api.VerifSimRegisterMeta(); err != nil {
